@@ -33,9 +33,20 @@ func TestC19_RaceFree(t *testing.T) {
 		}
 		shared := crypto.NewExpandMsgXOFKMAC128("c19-" + string(g.Bytes("tag", 0, 6))) // one KMAC hasher shared by everybody
 		kmac, _ := hash.NewKMAC_128([]byte("0123456789abcdef-c19"), []byte("c"), g.Int("kmacSize", 32, 64))
+		// the messages are adjacent sub-slices of one buffer (each has spare capacity reaching into its
+		// neighbour), so a callee that appends to or writes past its argument corrupts another message
 		msgs := make([][]byte, 3)
+		var msgBuf []byte
+		var msgLens []int
 		for i := range msgs {
-			msgs[i] = g.Bytes(fmt.Sprintf("msg%d", i), 0, 300)
+			m := g.Bytes(fmt.Sprintf("msg%d", i), 0, 300)
+			msgBuf = append(msgBuf, m...)
+			msgLens = append(msgLens, len(m))
+		}
+		msgBuf = append(msgBuf, make([]byte, 64)...)
+		for i, off := 0, 0; i < len(msgs); i++ {
+			msgs[i] = msgBuf[off : off+msgLens[i]]
+			off += msgLens[i]
 		}
 		sigs := make([][]crypto.Signature, nk) // sigs[key][msg]
 		for i := range sigs {
@@ -75,9 +86,7 @@ func TestC19_RaceFree(t *testing.T) {
 				}
 				b.Write(pops[i])
 			}
-			for _, m := range msgs {
-				b.Write(m)
-			}
+			b.Write(msgBuf)
 			for _, s := range aggSame {
 				b.Write(s)
 			}
@@ -129,12 +138,16 @@ func TestC19_RaceFree(t *testing.T) {
 					return fmt.Sprintf("%v %v", ok, err)
 				}}
 			case 8:
+				short := g.Bool(label + "ShortSig")
 				return c19Call{"BatchVerifyBLSSignaturesOneMessage", func() string {
 					l := make([]crypto.Signature, nk)
 					for i := range l {
 						l[i] = sigs[i][mi]
 					}
 					l[ki] = sigs[ki][(mi+1)%len(msgs)]
+					if short {
+						l[(ki+1)%nk] = sigs[(ki+1)%nk][mi][:47] // a short signature: that index is reported false
+					}
 					res, err := crypto.BatchVerifyBLSSignaturesOneMessage(pks, l, msgs[mi], shared)
 					return fmt.Sprintf("%v %v", res, err)
 				}}
